@@ -573,6 +573,38 @@ def _make_cfg(rng, n, k, strategy, kmeans0, d=None, max_iter=None):
                 max_iter=max_iter or rng.choice([2, 4, 6, 10, 20]), X=X.tolist(), Xb=Xb.tolist())
 
 
+WITNESS = dict(kind="witness", n=5, k=3, strategy="gain", kmeans0=False, X=[[1], [1], [0], [0], [1]],
+               centers=[[1], [1], [1]], labels=[0, 0, 0, 0, 1])
+
+
+def _check_witness(w):
+    """Replay of the Lean witness of `gain_counterexample` (one association call on given labels/centres)."""
+    import numpy
+    from mlinsights.mlmodel import _kmeans_constraint_ as M
+    n, k = w["n"], w["k"]
+    X = numpy.array(w["X"], dtype=float)
+    centers = numpy.array(w["centers"], dtype=float)
+    labels = numpy.array(w["labels"], dtype=numpy.int32)
+    numpy.random.seed(0)
+    with Recording() as recs:
+        try:
+            M.constraint_kmeans(X, labels, None, centers, float(n), 0, 1, strategy=w["strategy"], state=None)
+        except Exception:
+            pass
+    if not recs.calls or recs.calls[0]["after"] is None:
+        return []
+    rec = recs.calls[0]
+    if rec["error"]:
+        return [("constraint_kmeans:gain:given-start:fit-raises-%s" % rec["error"],
+                 "association raises %s on the model witness" % rec["error"], rec["error"], "balanced labels")]
+    ok, h = hist_ok(rec["after"], n, k)
+    if not ok:
+        return [("constraint_kmeans:%s:unbalanced:%s" % (w["strategy"], _cls(n, k)),
+                 "cluster sizes after the first association outside {floor(n/k), ceil(n/k)} on the Lean witness "
+                 "(n=%d, k=%d, start sizes 4,1,0)" % (n, k), h, "every size in {%d,%d}" % (n // k, -(-n // k)))]
+    return []
+
+
 def search(ctx, hints):
     ctx.shadow(need_cython=True)
     import warnings
@@ -596,6 +628,15 @@ def search(ctx, hints):
     for t in range(ctx.pick(60, 1500) * (3 if broken else 1)):
         n, k = gen_nk(rng, ctx.pick(40, 60), t % 3)
         cfgs.append(_make_cfg(rng, n, k, rng.choice(["distance", "gain", "gain"]), rng.random() < 0.5))
+    # the starvation class: random start (kmeans0=False), strategy gain, n = k (about 5% of the seeds fail on a
+    # tree without the last pass of transfers)
+    for k in (5, 6, 7):
+        for t in range(ctx.pick(70, 200)):
+            cfgs.append(_make_cfg(rng, k, k, "gain", False, d=2, max_iter=4))
+    # the Lean witness of gain_counterexample, replayed on the real code
+    for key, what, obs, req in _check_witness(WITNESS):
+        vs.append(Violation(key, what, dict(WITNESS), obs, req))
+    evals += 1
     for cfg in cfgs:
         bad = _check_config(cfg)
         evals += 1
@@ -618,4 +659,6 @@ def replay(ctx, item):
     import warnings
     warnings.filterwarnings("ignore")
     cfg = item["input"]
+    if cfg.get("kind") == "witness":
+        return [Violation(k, w, cfg, o, r) for k, w, o, r in _check_witness(cfg)]
     return [Violation(k, w, cfg, o, r) for k, w, o, r in _check_config(cfg)]
